@@ -104,8 +104,12 @@ def sleepers_scenario(sh: Shard, seed, idx, regime):
                 t = w.now
                 try:
                     C.set_config_mode(active)
-                except AssertionError:
-                    sh.count("assert_no_sleeper_yet")  # statement does not cover a switch before any sleep
+                except (AssertionError, AttributeError):
+                    if C.ConfigChange is not None:
+                        raise
+                    # a switch before anything ever slept: the library asserts (with assertions stripped,
+                    # python -O, it fails on the missing future instead); outside the statement either way
+                    sh.count("assert_no_sleeper_yet")
                     continue
                 switches.append((t, w.now, active))
                 check_table(sh, active, "set_config_mode", {"scenario": f"{seed}:{idx}", "switch_at": round(t - base, 3)})
